@@ -157,6 +157,13 @@ class Dag:
             if env.setdefault(t.id, k) != k:
                 raise _No
             return
+        if isinstance(t, ast.Name) and t.id.startswith("_v_"):
+            # a variable bound inside the matched term (comprehension / lambda variable): any name, the same everywhere
+            if not isinstance(c, ast.Name) or c.id in self.defs:
+                raise _No
+            if env.setdefault(t.id, c.id) != c.id:
+                raise _No
+            return
         if isinstance(t, ast.Name) and t.id.startswith("_k_"):
             cc = self.node(c)
             if not isinstance(cc, ast.Constant):
@@ -164,6 +171,8 @@ class Dag:
             if env.setdefault(t.id, repr(cc.value)) != repr(cc.value):
                 raise _No
             return
+        if isinstance(t, ast.Name) and isinstance(c, ast.Name) and t.id == c.id:
+            return  # the template names a node of the graph (a symbol bound earlier) or the same leaf
         c = self.node(c) if isinstance(c, ast.Name) else c
         # dotted names: template `numpy.dot` is an Attribute chain, the graph holds it as one Name
         if isinstance(t, ast.Attribute) and isinstance(c, ast.Name) and "." in c.id:
@@ -311,7 +320,7 @@ class Values:
         ids = sorted({self.dag._ident(v) for v in vals})
         if len(ids) == 1:
             return vals[0]
-        return self.dag.intern(ast.Call(func=ast.Name(id="PHI", ctx=ast.Load()), args=[ast.Name(id=i, ctx=ast.Load()) if not i[0].isdigit() and i.isidentifier() else ast.parse(i, mode="eval").body for i in ids], keywords=[]))
+        return self.dag.intern(ast.Call(func=ast.Name(id="PHI", ctx=ast.Load()), args=[ast.parse(i, mode="eval").body for i in ids], keywords=[]))
 
     def _def(self, name, d):
         key = (name, d)
@@ -404,7 +413,43 @@ class Values:
         """node of an expression evaluated at statement at_stmt"""
         e = self._subst(copy.deepcopy(expr), at_stmt)
         e = self.pv._finish_ast(e) if hasattr(self.pv, "_finish_ast") else e
+        e = self._bind_args(e)
         return self.dag.intern_tree(e)
+
+    def _bind_args(self, e):
+        """calls of functions defined in the repository get their positional arguments bound to parameter names
+        (`util.allclose(a, b, 1e-8)` and `util.allclose(a, b, atol=1e-8)` are one node); keywords stay sorted"""
+        ix = self.ix
+        from .index import ClassInfo, FuncInfo
+
+        class B(ast.NodeTransformer):
+            def visit_Call(self, node):
+                self.generic_visit(node)
+                if not (isinstance(node.func, ast.Name) and "." in node.func.id and node.args) or any(isinstance(a, ast.Starred) for a in node.args) \
+                        or any(k.arg is None for k in node.keywords):
+                    return node
+                r = ix.resolve_dotted(node.func.id)
+                params = None
+                if isinstance(r, FuncInfo) and r.cls is None:
+                    a = r.node.args
+                    if not a.vararg:
+                        params = [x.arg for x in a.posonlyargs + a.args]
+                elif isinstance(r, ClassInfo):
+                    mem = ix.member(r, "__init__")
+                    ini = mem.get("method") if mem else None
+                    if ini is not None and not ini.node.args.vararg:
+                        params = [x.arg for x in ini.node.args.posonlyargs + ini.node.args.args][1:]
+                if params is None or len(node.args) > len(params):
+                    return node
+                have = {k.arg for k in node.keywords}
+                names = params[:len(node.args)]
+                if have & set(names):
+                    return node
+                node.keywords = sorted(node.keywords + [ast.keyword(arg=n, value=v) for n, v in zip(names, node.args)], key=lambda k: k.arg)
+                node.args = []
+                return node
+
+        return B().visit(e)
 
     # convenience
     def returns(self):
